@@ -19,6 +19,8 @@
             4  a read changed the dict
             5  implementation <> Spec and <> model
             6  the dict after construction is not empty
+            7  Spec/NpAssign.v <> what the real NumPy shadow array did at this step (the Spec or
+               the harness is wrong; says nothing about the implementation)
      clause 0 none (inside the proved domain)   3 value_ndim   4 fancy_in_range   5 fancy_nonempty
             6 fancy_value   7 bool_mask   10 empty_tuple_key *)
 From Coq Require Import ZArith List Bool.
@@ -34,9 +36,11 @@ Inductive jop := JSet (k : key) (vsh vflat : list Z) | JGet (k : key).
 Inductive jout := JOk | JExc (e : Z) | JVal (sh flat : list Z).
 
 Definition jstate := list (list Z * Z).
-Definition jstep := (jop * jout * jstate)%type.
-(* final observations: todense (flat) / coo (coords, data) — None if it raised — and nnz *)
-Definition jfinal := (option (list Z) * option (list (list Z) * list Z) * Z)%type.
+(* operation, what the implementation did, its dict afterwards, what NumPy did on the shadow array *)
+Definition jstep := (jop * jout * jstate * jout)%type.
+(* final observations: todense (flat) / coo (coords, data) — None if it raised —, nnz, and the
+   NumPy shadow array (flat) *)
+Definition jfinal := (option (list Z) * option (list (list Z) * list Z) * Z * list Z)%type.
 Definition hist_case := (list Z * Z * jstate * list jstep * jfinal)%type.
 
 Definition exc_code (e : exc) : Z :=
@@ -83,7 +87,7 @@ Definition verdict (agree_spec agree_model both_raise class_ok : bool) (cl : Z) 
   else if agree_model || both_raise then cl * 10 + 2 else cl * 10 + 5.
 
 Definition judge_step (sh : list Z) (fill : Z) (prev : jstate) (s : jstep) : Z :=
-  let '(op, out, after) := s in
+  let '(op, out, after, _) := s in
   match op with
   | JSet k vsh vflat =>
     let v := arr_of vsh vflat in
@@ -126,7 +130,7 @@ Definition judge_step (sh : list Z) (fill : Z) (prev : jstate) (s : jstep) : Z :
   end.
 
 Definition judge_final (sh : list Z) (fill : Z) (st : jstate) (f : jfinal) : Z :=
-  let '(td, co, n) := f in
+  let '(td, co, n, _) := f in
   if negb (keys_ok sh st) then 0        (* a corrupted dict was already reported at its step *)
   else
     let spec_flat := np_flat sh (abs fill st) in
@@ -146,7 +150,41 @@ Definition judge_final (sh : list Z) (fill : Z) (st : jstate) (f : jfinal) : Z :
     let v_n := if n =? nnz st then 0 else 2 in
     if negb (v_td =? 0) then v_td else if negb (v_co =? 0) then v_co else v_n.
 
+(* ---- the Spec against real NumPy: replay the history on the Spec alone ---- *)
+Definition materialise (sh : list Z) (a : idx -> Z) : idx -> Z :=
+  let l := np_flat sh a in fun ix => nth (Z.to_nat (ravel sh ix)) l 0.
+
+Definition spec_step (sh : list Z) (a : idx -> Z) (s : jstep) : bool * (idx -> Z) :=
+  let '(op, _, _, npout) := s in
+  match op with
+  | JSet k vsh vflat =>
+    match np_setitem sh a k (arr_of vsh vflat), npout with
+    | Some a', JOk => (true, materialise sh a')
+    | None, JExc _ => (true, a)
+    | Some a', _ => (false, a)
+    | None, _ => (false, a)
+    end
+  | JGet k =>
+    match np_getitem sh a k, npout with
+    | Some (rs, rf), JVal s f => (zl_eqb rs s && zl_eqb rf f, a)
+    | None, JExc _ => (true, a)
+    | _, _ => (false, a)
+    end
+  end.
+
+Definition judge_spec (c : hist_case) : Z :=
+  let '(sh, fill, _, steps, fin) := c in
+  let '(_, _, _, npflat) := fin in
+  let fix go (i : Z) (a : idx -> Z) (l : list jstep) : Z :=
+    match l with
+    | [] => if zl_eqb (np_flat sh a) npflat then 0 else i * 1000 + 7
+    | s :: r => let '(ok, a') := spec_step sh a s in if ok then go (i + 1) a' r else i * 1000 + 7
+    end in
+  go 1 (materialise sh (np_full fill)) steps.
+
 Definition judge_hist (c : hist_case) : Z :=
+  let vs := judge_spec c in
+  if negb (vs =? 0) then vs else
   let '(sh, fill, s0, steps, fin) := c in
   if negb (state_eqb s0 []) then 1000 + 6 else
   let fix go (i : Z) (prev : jstate) (l : list jstep) : Z :=
@@ -154,6 +192,6 @@ Definition judge_hist (c : hist_case) : Z :=
     | [] => let v := judge_final sh fill prev fin in if v =? 0 then 0 else i * 1000 + v
     | s :: r =>
       let v := judge_step sh fill prev s in
-      if v =? 0 then go (i + 1) (snd s) r else i * 1000 + v
+      if v =? 0 then go (i + 1) (snd (fst s)) r else i * 1000 + v
     end in
   go 1 s0 steps.
